@@ -114,7 +114,7 @@ class Check:
             if verdict in ("inconclusive", "unknown", "timeout"):
                 self.exhaustive = False
                 self.undecided.append(f"{name}: {verdict} {kw.get('notes', '')}".strip())
-        print(f"  [{self.pid}] {name}: {verdict} " + " ".join(f"{k}={v}" for k, v in kw.items() if k != "notes"), flush=True)
+        print(f"  [{self.pid} +{time.time() - self.t0:5.0f}s] {name}: {verdict} " + " ".join(f"{k}={v}" for k, v in kw.items() if k != "notes"), flush=True)
         return d
 
     def skip(self, what, why):
